@@ -205,21 +205,7 @@ func Run(c *core.Ctx) {
 	if err != nil || r.Violated != "" || r.ErrText != "" || r.TimedOut {
 		core.Fatalf("ban simulation failed: %v %s", err, r.Brief())
 	}
-	sort.Strings(lines)
-	var sims [][]json.RawMessage
-	for i, l := range lines {
-		if i+1 < len(lines) && (lines[i+1] == l || strings.HasPrefix(lines[i+1], l+",")) {
-			continue
-		}
-		var h []json.RawMessage
-		if json.Unmarshal([]byte(l+"]"), &h) == nil && len(h) > 0 {
-			sims = append(sims, h)
-		}
-	}
-	rng.Shuffle(len(sims), func(i, j int) { sims[i], sims[j] = sims[j], sims[i] })
-	if len(sims) > num {
-		sims = sims[:num]
-	}
+	sims := core.Behaviours(lines, num, rng)
 	c.Add("simulated_behaviours", int64(len(sims)))
 	walks = append(walks, sims...)
 	var traces []*core.Trace
